@@ -31,9 +31,23 @@ static void body(void *a)
     }
 }
 
+static hold_t prehold[2]; static int n_prehold;      /* blocks held by "somebody else" (owner 6) from before the threads start until the epilogue */
+static void run_arena_pre(int n, size_t elem, size_t align, int32_t mu, int32_t mr, int strict, int pre_held, int pre_cached, const char *s0, const char *s1, const char *s2);
 static void run_arena(int n, size_t elem, size_t align, int32_t mu, int32_t mr, int strict, const char *s0, const char *s1, const char *s2)
 {
+    run_arena_pre(n, elem, align, mu, mr, strict, 0, 0, s0, s1, s2);
+}
+/* pre-state (sequential, before the threads start): pre_cached blocks sit in the arena's cache (allocated and released by owner 7),
+ * pre_held single-element blocks are held by owner 6 until the epilogue */
+static void run_arena_pre(int n, size_t elem, size_t align, int32_t mu, int32_t mr, int strict, int pre_held, int pre_cached, const char *s0, const char *s1, const char *s2)
+{
     arena_setup(elem, align, mu, mr);
+    memset(prehold, 0, sizeof(prehold)); n_prehold = 0;
+    { hold_t tmp[2]; int k = 0;
+      for (; k < pre_cached && k < 2; k++) CHK(hold_alloc(&tmp[k], 7, 1), "pre-state: allocation refused");
+      for (int i = 0; i < k; i++) hold_release(&tmp[i], 7);
+      CHK(arena_cached() == pre_cached, "pre-state: %d blocks cached instead of %d", arena_cached(), pre_cached);
+      for (int i = 0; i < pre_held && i < 2; i++) { CHK(hold_alloc(&prehold[i], 6, 1), "pre-state: allocation refused"); n_prehold++; } }
     memset(holds, 0, sizeof(holds)); memset(n_ok, 0, sizeof(n_ok)); memset(n_refused, 0, sizeof(n_refused)); n_cached_hit = 0;
     script[0] = s0; script[1] = s1; script[2] = s2; strict_cache = strict; max_live_releases = live_releases = 0;
     /* points: the free-list head, the two counters, and the list links of every block (the limits, sizes and function
@@ -46,10 +60,10 @@ static void run_arena(int n, size_t elem, size_t align, int32_t mu, int32_t mr, 
     void *args[MAXT] = { (void *)0, (void *)1, (void *)2 };
     cs_run(n, b, args);
     /* ---- quiescent state ---- */
-    int still = 0;
+    int still = n_prehold;
     for (int t = 0; t < n; t++) for (int i = 0; i < MAXHOLD; i++) if (holds[t][i].in_use) still += holds[t][i].count;
     CHK(still == owned_elems, "harness: ownership accounting");
-    int cached = arena_cached(), nheld = 0;
+    int cached = arena_cached(), nheld = n_prehold;
     for (int t = 0; t < n; t++) for (int i = 0; i < MAXHOLD; i++) if (holds[t][i].in_use) nheld++;
     CHK(live_slots() == cached + nheld, "%d blocks are allocated from the system, but %d are cached and %d in use (leak)", live_slots(), cached, nheld);
     if (mr != INT32_MAX) CHK(arena->released == cached, "arena->released is %d but %d blocks are cached", arena->released, cached);
@@ -63,6 +77,7 @@ static void run_arena(int n, size_t elem, size_t align, int32_t mu, int32_t mr, 
     cs_observe("ok %d/%d/%d refused %d/%d/%d cache-hits %d cached %d used %d sys-allocs %ld", n_ok[0], n_ok[1], n_ok[2], n_refused[0], n_refused[1], n_refused[2], n_cached_hit, cached, arena->used, n_sys_alloc);
     /* ---- sequential epilogue: release what is still held, then drain: exactly max_used single elements can be had ---- */
     for (int t = 0; t < n; t++) for (int i = 0; i < MAXHOLD; i++) if (holds[t][i].in_use) hold_release(&holds[t][i], t);
+    for (int i = 0; i < n_prehold; i++) hold_release(&prehold[i], 6);
     if (mu != INT32_MAX) {
         static hold_t d[NSLOT + 2]; int got = 0;
         while (got < NSLOT && hold_alloc(&d[got], 7, 1)) got++;
@@ -184,6 +199,93 @@ static void setup(void)
     parsec_lifo_t *l = PARSEC_OBJ_NEW(parsec_lifo_t); PARSEC_OBJ_RELEASE(l);
     parsec_list_item_t *i = PARSEC_OBJ_NEW(parsec_list_item_t); PARSEC_OBJ_RELEASE(i);
 }
+/* ------------------------------------------------------------------ GENERATED scripts (bounded-exhaustive families)
+ * The enumeration lives in c27gen.py (driven by check.py); a script is completely described by its TEXT, which is also its
+ * scenario name and therefore stored in the replay file:
+ *   arena:    g_ar_u<U>c<C>h<H>p<P>_<T0>_<T1>[_<T2>]      e.g.  g_ar_u2c1h1p0_a_a
+ *               U allocation limit in elements: 2 | I (none);  C cache limit: 0 | 1 | I;  element 40 bytes, alignment 16
+ *               H single-element blocks held by somebody else from before the start until the epilogue (0|1)
+ *               P blocks sitting in the cache at the start (0|1; needs C != 0)
+ *               T<t>: letters a (allocate 1 element) A (allocate 2) r (release the oldest block I hold) R (release the newest)
+ *   mempool:  g_mp_p<N>_<T0>_<T1>                         e.g.  g_mp_p1_as_w
+ *               N elements allocated and freed by T0's pool before the start (0|1|2)
+ *               letters a (allocate from my pool) f (free my oldest) s (hand my oldest to the other thread) w (take the element handed to me and free it)
+ * Usage contract (checked here too): r/R/f/s only when the thread holds a block by then (as many allocations as releases before it);
+ * every w has its s in the other thread (the enumeration also drops scripts whose s/w order can deadlock: that is a property of
+ * the script, not of the pools). */
+#define MAXGEN 1024
+typedef struct { char name[64]; int is_mp, mu, mr, h, p, nthr; char s[3][8]; } gdef_t;
+static gdef_t gdefs[MAXGEN]; static int ngdefs;
+static int g_parse(const char *txt, gdef_t *g, char *err, size_t elen)
+{
+    memset(g, 0, sizeof(*g));
+    if (strlen(txt) >= sizeof(g->name)) { snprintf(err, elen, "script text too long"); return -1; }
+    strcpy(g->name, txt);
+    const char *p;
+    if (!strncmp(txt, "g_ar_u", 6)) {
+        p = txt + 6;
+        if (*p == '2') g->mu = 2; else if (*p == 'I') g->mu = INT32_MAX; else { snprintf(err, elen, "bad allocation limit"); return -1; }
+        p++; if (*p++ != 'c') { snprintf(err, elen, "bad pre-state"); return -1; }
+        if (*p == '0') g->mr = 0; else if (*p == '1') g->mr = 1; else if (*p == 'I') g->mr = INT32_MAX; else { snprintf(err, elen, "bad cache limit"); return -1; }
+        p++; if (*p++ != 'h' || (*p != '0' && *p != '1')) { snprintf(err, elen, "bad pre-state (held)"); return -1; }
+        g->h = *p++ - '0';
+        if (*p++ != 'p' || (*p != '0' && *p != '1')) { snprintf(err, elen, "bad pre-state (cached)"); return -1; }
+        g->p = *p++ - '0';
+        if (g->p && g->mr == 0) { snprintf(err, elen, "pre-state: a cache of limit 0 cannot hold a block"); return -1; }
+        if (g->mu != INT32_MAX && g->h + g->p > g->mu) { snprintf(err, elen, "pre-state exceeds the allocation limit"); return -1; }
+    } else if (!strncmp(txt, "g_mp_p", 6)) {
+        g->is_mp = 1; p = txt + 6;
+        if (*p < '0' || *p > '2') { snprintf(err, elen, "bad pre-population"); return -1; }
+        g->p = *p++ - '0';
+    } else { snprintf(err, elen, "not a generated script text"); return -1; }
+    int t = 0;
+    while (*p == '_') {
+        p++;
+        if (t >= (g->is_mp ? 2 : 3)) { snprintf(err, elen, "too many threads"); return -1; }
+        int n = 0, held = 0;
+        while (*p && *p != '_') {
+            if (n >= 6) { snprintf(err, elen, "more than 6 operations in thread %d", t); return -1; }
+            char c = *p++;
+            if (g->is_mp ? !strchr("afsw", c) : !strchr("aArR", c)) { snprintf(err, elen, "bad operation '%c'", c); return -1; }
+            if (c == 'a' || c == 'A') held++;
+            else if (c != 'w') { if (held < 1) { snprintf(err, elen, "contract: thread %d releases a block it cannot hold", t); return -1; } held--; }
+            g->s[t][n++] = c;
+        }
+        if (n < 1) { snprintf(err, elen, "thread %d has no operation", t); return -1; }
+        t++;
+    }
+    if (*p || t < 2) { snprintf(err, elen, "trailing text or fewer than 2 threads"); return -1; }
+    g->nthr = t;
+    if (g->is_mp) {
+        int ns[2] = { 0, 0 }, nw[2] = { 0, 0 };
+        for (int k = 0; k < 2; k++) for (const char *q = g->s[k]; *q; q++) { ns[k] += *q == 's'; nw[k] += *q == 'w'; }
+        if (ns[0] != nw[1] || ns[1] != nw[0]) { snprintf(err, elen, "contract: every w needs its s in the other thread"); return -1; }
+    }
+    return 0;
+}
+static void g_run(const gdef_t *g)
+{
+    if (g->is_mp) run_mempool(g->p, g->s[0], g->s[1]);
+    else run_arena_pre(g->nthr, 40, 16, g->mu, g->mr, 1, g->h, g->p, g->s[0], g->s[1], g->s[2]);
+}
+/* cosched scenarios carry a parameterless run(): one trampoline per slot of gdefs[] */
+#define G1(i) static void grun_##i(void) { g_run(&gdefs[0x##i]); }
+#define G16(p) G1(p##0) G1(p##1) G1(p##2) G1(p##3) G1(p##4) G1(p##5) G1(p##6) G1(p##7) G1(p##8) G1(p##9) G1(p##a) G1(p##b) G1(p##c) G1(p##d) G1(p##e) G1(p##f)
+#define G256(p) G16(p##0) G16(p##1) G16(p##2) G16(p##3) G16(p##4) G16(p##5) G16(p##6) G16(p##7) G16(p##8) G16(p##9) G16(p##a) G16(p##b) G16(p##c) G16(p##d) G16(p##e) G16(p##f)
+G256(0) G256(1) G256(2) G256(3)
+#define N1(i) grun_##i,
+#define N16(p) N1(p##0) N1(p##1) N1(p##2) N1(p##3) N1(p##4) N1(p##5) N1(p##6) N1(p##7) N1(p##8) N1(p##9) N1(p##a) N1(p##b) N1(p##c) N1(p##d) N1(p##e) N1(p##f)
+#define N256(p) N16(p##0) N16(p##1) N16(p##2) N16(p##3) N16(p##4) N16(p##5) N16(p##6) N16(p##7) N16(p##8) N16(p##9) N16(p##a) N16(p##b) N16(p##c) N16(p##d) N16(p##e) N16(p##f)
+static void (*const GRUNS[])(void) = { N256(0) N256(1) N256(2) N256(3) };
+_Static_assert(sizeof(GRUNS) / sizeof(GRUNS[0]) == MAXGEN, "one trampoline per generated slot");
+static int g_add(const char *txt)
+{
+    char err[160];
+    if (ngdefs >= MAXGEN) { fprintf(stderr, "c27: more than %d generated scripts in one invocation\n", MAXGEN); return -1; }
+    if (g_parse(txt, &gdefs[ngdefs], err, sizeof(err))) { fprintf(stderr, "c27: generated script '%s' rejected: %s\n", txt, err); return -1; }
+    ngdefs++; return 0;
+}
+
 #define S(id, mb) { #id, scen_##id, mb }
 static cs_scenario_t set_a[] = { S(ar_u2c1_arar_arar, 0), S(ar_uINFc1_arar_ar, 0), S(ar_u3c2_Ar_aarr, 0), S(ar_u2cINF_arar_aar, 0),
                                  S(cachelimit_one_releaser, 0), S(cachelimit_one_releaser_c0, 0), S(mp_cross_free, 0), S(mp_cross_free_pre, 0), S(mp_pingpong, 0), S(mp_two_returns, 0) };
@@ -193,9 +295,32 @@ static cs_scenario_t set_k[] = { S(cachelimit_concurrent_release, 0), S(cachelim
 int main(int argc, char **argv)
 {
     static cs_scenario_t all[N(set_a) + N(set_b) + N(set_k)]; int n = 0;
+    /* generated families: --gen <text> / --gen-file <file with one text per line> replace the hand-written scripts in this invocation;
+     * the replay file of a generated script carries the script text as its scenario name, from which the script is rebuilt */
+    char *av[64]; int na = 0; const char *replay = NULL; static char filebuf[1 << 17];
+    for (int i = 0; i < argc && na < 63; i++) {
+        if (!strcmp(argv[i], "--gen") && i + 1 < argc) { if (g_add(argv[++i])) return 2; }
+        else if (!strcmp(argv[i], "--gen-file") && i + 1 < argc) {
+            FILE *f = fopen(argv[++i], "r"); if (!f) { perror(argv[i]); return 2; }
+            size_t k = fread(filebuf, 1, sizeof(filebuf) - 1, f); fclose(f); filebuf[k] = 0;
+            for (char *q = strtok(filebuf, "\n"); q; q = strtok(NULL, "\n")) if (*q && g_add(q)) return 2;
+        }
+        else { if (!strcmp(argv[i], "--replay") && i + 1 < argc) replay = argv[i + 1]; av[na++] = argv[i]; }
+    }
+    av[na] = NULL;
+    if (replay) {
+        static char rb[1 << 16]; FILE *f = fopen(replay, "r");
+        if (f) { size_t k = fread(rb, 1, sizeof(rb) - 1, f); fclose(f); rb[k] = 0;
+            char *q = strstr(rb, "\"scenario\":\"g_"); if (q) { q += 12; char *e = strchr(q, '"'); if (e) { *e = 0; if (g_add(q)) return 2; printf("generated script %s (rebuilt from the scenario text of the replay file)\n", q); } } }
+    }
+    if (ngdefs) {
+        cs_scenario_t *sc = calloc(ngdefs, sizeof(*sc));
+        for (int i = 0; i < ngdefs; i++) { sc[i].name = gdefs[i].name; sc[i].run = GRUNS[i]; }
+        return cs_main(na, av, "C27", sc, ngdefs, setup);
+    }
     const char *set = getenv("C27_SET");            /* unset (replay): every scenario; else a list out of a,b,k */
     if (!set || strchr(set, 'a')) for (int i = 0; i < N(set_a); i++) all[n++] = set_a[i];
     if (!set || strchr(set, 'b')) for (int i = 0; i < N(set_b); i++) all[n++] = set_b[i];
     if (!set || strchr(set, 'k')) for (int i = 0; i < N(set_k); i++) all[n++] = set_k[i];
-    return cs_main(argc, argv, "C27", all, n, setup);
+    return cs_main(na, av, "C27", all, n, setup);
 }
